@@ -95,3 +95,28 @@ Definition wf_feature (st : style) (f : feature) : bool :=
   && col_ok (f_strand f) && col_ok (f_frame f)
   && wf_attrs st (f_attrs f) && extras_ok (f_extra f)
   && f_keep_order f && negb (f_sort_values f).
+
+(* ---- C08 domain: mappings of the property and the dialect families ---- *)
+(* keys of the property: [A-Za-z_][A-Za-z0-9_.-]* *)
+Definition key_first (c : N) : bool := ((65 <=? c) && (c <=? 90)) || (c =? 95) || ((97 <=? c) && (c <=? 122)).
+Definition key_rest (c : N) : bool := key_first c || ((48 <=? c) && (c <=? 57)) || (c =? 46) || (c =? 45).
+Definition prop_key (k : str) : bool := match k with c :: r => key_first c && forallb key_rest r | [] => false end.
+
+Definition mapping_ok (m : attrs) : bool :=
+  keys_unique m && forallb (fun kv => prop_key (fst kv) &&
+                             match snd kv with [] => false | vs => forallb (fun v => match v with [] => false | _ => true end) vs end) m.
+
+Definition is_control (c : N) : bool := (c <? 32) || ((127 <=? c) && (c <=? 159)).
+Definition gtf_value_ok (v : str) : bool := forallb (fun c => negb (is_control c) && negb (mem_char c [SEMI; DQ; COMMA])) v.
+
+Definition seps_ok (D : dialect) : bool :=
+  fsep_ok (d_fsep D) && str_eqb (d_mvsep D) [COMMA] && negb (d_leading D).
+Definition gff3_style (D : dialect) : bool :=
+  seps_ok D && str_eqb (d_fmt D) GFF3 && (str_eqb (d_kvsep D) [EQ] || str_eqb (d_kvsep D) [SP]).
+Definition gtf_standard (D : dialect) : bool :=
+  seps_ok D && str_eqb (d_fmt D) GTF && str_eqb (d_kvsep D) [SP] && d_quoted D.
+(* finding F16: fmt = gtf but not (kvsep " " and quoted) *)
+Definition known_F16 (D : dialect) : bool :=
+  seps_ok D && str_eqb (d_fmt D) GTF && negb (str_eqb (d_kvsep D) [SP] && d_quoted D)
+  && (str_eqb (d_kvsep D) [EQ] || str_eqb (d_kvsep D) [SP]).
+
